@@ -14,7 +14,7 @@ the predicted words, and the specification's processor machine, run by TLC on th
 from ..common import MachineryError
 from .. import isa
 
-REL_SHAPES = ["std", "dot", "dotdec", "dec", "lbl", "lblp", "lblm", "locc", "numlocc", "parlbl", "lblc"]
+REL_SHAPES = ["std", "dot", "dotdec", "dec", "lbl", "lblp", "lblm", "locc", "numlocc", "parlbl", "lblc", "plbl"]
 REL_OPS_QUICK = ["mov", "cmpb", "clr", "jmp", "jsr", "mul", "push", "pop", "ldf", "stf", "tstd", "ldexp", "stexp"]
 REL_OPS_FULL = REL_OPS_QUICK + ["add", "bisb", "sub", "tstb", "swab", "mtps", "xor", "ash", "div", "call", "callr", "ldd", "std", "cmpf",
                                 "absf", "ldfps", "stfps", "stcdi", "ldcif", "ldcdf", "stcfd", "mfpi", "sxt"]
